@@ -32,6 +32,9 @@ def _count(body, pred):
     return lo, hi, inloop, sorted(blocks)
 
 
+_IMPORTING_C03 = False
+
+
 def check(ctx):
     fx = ctx.fx
     # ------------------------------------------------------------------ R10.1
@@ -193,6 +196,20 @@ def check(ctx):
                 ctx.ob("R10.6", f"{f['key']}|rebuild-is-told-the-count-after-the-update", ok, cb_.loc(b),
                        f"rebuild called with `{det}`; a count derived from the RMW on used_streams_count must be its answer +1 (create) / -1 (drop)")
     ctx.floor("R10.6", 1)
+    # ------------------------------------------------------------------ R10.8 nobody is sent to while nobody listens: the fan-outs walk the live list only (shared with C03 R03.3)
+    import importlib
+    global _IMPORTING_C03
+    if not _IMPORTING_C03 and getattr(ctx, "pid", None) == "C10":            # (C03 itself re-uses C10's bookkeeping rules through C17: do not recurse)
+        _IMPORTING_C03 = True
+        try:
+            sub3 = util.fresh_ctx(ctx, "C03")
+            importlib.import_module("props.C03").check(sub3)
+        finally:
+            _IMPORTING_C03 = False
+        for o in sub3.obs:
+            if o["rule"] == "R03.3" and "walks-only-the-live-list" in o["key"]:
+                ctx.ob("R10.8", o["key"], o["ok"], o["site"], o["detail"], o["nontrivial"])
+        ctx.floor("R10.8", 5)
     # ------------------------------------------------------------------ R10.7 cursor discipline of the rebuild: no gap at the front, no stale tail
     S.check_rebuild_cursor(ctx, "R10.7")
     ctx.floor("R10.7", 2)
